@@ -70,6 +70,31 @@ def check_writer(case, rec):
                 R.index_word_for(dec["entries"], dec["common"]), dec["rw"]),
             sig="bytes differ from documented layout")
     rec.note("iw=%d" % dec["iw"])
+    if len(case["entries"]) >= 2:
+        # the writer is also handed what the library's own loader returns (views of one file mapping), with the keys in
+        # another order: the new file must be the documented layout of THAT order
+        import numpy
+
+        from catii.indxio import IndxIO
+
+        path = os.path.join(G.scratch_dir(), "c11w.indx")
+        with open(path, "wb") as f:
+            f.write(data)
+        with open(path, "rb") as f:
+            with libcall("IndxIO.load + save of the loaded parts in another key order"):
+                entries, common, _ = IndxIO.load(f)
+                shuffled = dict(reversed(list(entries.items())))
+                path2 = os.path.join(G.scratch_dir(), "c11w2.indx")
+                with open(path2, "wb") as f2:
+                    IndxIO.save(f2, shuffled, common, numpy.dtype(numpy.uint32))
+            with open(path2, "rb") as f2:
+                data2 = f2.read()
+            ref2 = R.ref_encode([(tuple(k), v.tolist()) for k, v in shuffled.items()], common, iw=None, rw=4)
+            del entries, shuffled
+        if data2 != ref2:
+            i = next((k for k in range(min(len(ref2), len(data2))) if ref2[k] != data2[k]), -1)
+            raise Violation("file written from re-ordered loaded entries differs from the documented layout at byte %d" % i,
+                            sig="bytes differ from documented layout (re-saved loaded entries)")
     if nontrivial(case):
         rec.nontrivial()
 
